@@ -5,6 +5,7 @@
 
 #include "cmd_parse.h"
 #include "common.h"
+#include "guard.h"
 
 namespace vdom {
 
@@ -259,10 +260,15 @@ struct Session : ISession {
       std::string key;
       if (!n->IsObject() || !unhex(t[3], key)) return bad();
       const Node* cn = n;
-      auto sv = cn->FindMember(sonic_json::StringView(key.data(), key.size()));
-      auto pl = cn->FindMember(key.data(), key.size());
-      bool has = cn->HasMember(sonic_json::StringView(key.data(), key.size()));
-      const Node& at = (*cn)[sonic_json::StringView(key.data(), key.size())];
+      // the lookup key is handed over as exactly key.size() bytes that end at a PROT_NONE page: no terminator, nothing readable
+      // behind it (for the empty key the pointer itself is the first unmapped byte) - a lookup may only look at [key, key+len)
+      GuardBlock kb(key.size());
+      memcpy(kb.p, key.data(), key.size());
+      const char* kp = reinterpret_cast<const char*>(kb.p);
+      auto sv = cn->FindMember(sonic_json::StringView(kp, key.size()));
+      auto pl = cn->FindMember(kp, key.size());
+      bool has = cn->HasMember(sonic_json::StringView(kp, key.size()));
+      const Node& at = (*cn)[sonic_json::StringView(kp, key.size())];
       out = "sv=" + (sv == cn->MemberEnd() ? std::string("none") : std::to_string((size_t)(sv - cn->MemberBegin()))) +
             " pl=" + (pl == cn->MemberEnd() ? std::string("none") : std::to_string((size_t)(pl - cn->MemberBegin()))) +
             " has=" + (has ? "1" : "0") + " at=";
